@@ -94,6 +94,14 @@ func main() {
 	}
 	tier := drv.Tier(*tierF)
 	t0 := time.Now()
+	if os.Getenv("VERIF_PROF") != "" && *one != "" {
+		// profiling aid: explore one scenario in-process
+		stop := startProf()
+		st := explore.Explore(factory(*one), explore.Options{Bound: *boundF, Cache: true, MaxSteps: 4000})
+		stop()
+		fmt.Printf("execs=%d steps=%d wall=%.1f\n", st.Execs, st.Steps, st.WallS)
+		os.Exit(0)
+	}
 	ps := plans(*prop, tier)
 	if *one != "" {
 		ps = []drv.Plan{{Scenario: *one, Bound: 2, MaxSteps: 4000}}
